@@ -38,6 +38,9 @@ type cliCase struct {
 	// Alphabet: --alphabet is given, with the alphabet that is detected for every alignment of the
 	// input ("auto" when they differ)
 	Alphabet bool `json:"alphabet,omitempty"`
+	// Unaligned: reformat fasta --unaligned on a FASTA input ("Considers sequences as unaligned and
+	// format fasta"): an alignment read and written as a set of sequences
+	Unaligned bool `json:"unaligned,omitempty"`
 	// Preserve: a command documented to write "in the format of the input" (subseq over the whole
 	// length) is run on the same input with the same input options
 	Preserve bool `json:"preserve,omitempty"`
@@ -59,7 +62,13 @@ func genCLI(t *rapid.T) cliCase {
 		c.Out.NoBlock = rapid.Bool().Draw(t, "onoblock")
 	}
 	c.In.Format = rapid.SampledFrom([]string{"fasta", "phylip", "phylip", "phylip", "nexus", "clustal", "stockholm"}).Draw(t, "in")
-	c.Auto = c.In.Format != "stockholm" && rapid.IntRange(0, 3).Draw(t, "auto") == 0
+	// one case in eight: the alignment goes through the command line as a set of sequences
+	// (reformat fasta --unaligned, FASTA in and out)
+	c.Unaligned = rapid.IntRange(0, 7).Draw(t, "unaligned") == 0
+	if c.Unaligned {
+		c.In, c.Out = cfg{Format: "fasta"}, cfg{Format: "fasta"}
+	}
+	c.Auto = !c.Unaligned && c.In.Format != "stockholm" && rapid.IntRange(0, 3).Draw(t, "auto") == 0
 	k := 1
 	if c.In.Format == "phylip" {
 		// the help says that --auto-detect reads Phylip as not strict while the code
@@ -136,6 +145,10 @@ func checkCLI(c cliCase) (o pbt.Outcome, err error) {
 	if !has(cliOut, c.Out.Format) || !has(cliIn, c.In.Format) || !c.In.valid() || !c.Out.valid() || len(c.Alis) == 0 ||
 		!has([]string{"file", "stdin", ".gz", ".xz"}, c.InVia) || !(c.OutVia == "stdout" || c.OutVia == "file" || (c.OutVia != "" && validExt(c.OutVia))) || (c.Reread && c.OutVia == "stdout") ||
 		(c.Auto && (c.In.Format == "stockholm" || c.In.Strict)) || c.Existing < 0 || c.Existing > 3 || (c.Existing != 0 && c.OutVia == "stdout") {
+		o.Skip = true
+		return o, nil
+	}
+	if c.Unaligned && (c.In.Format != "fasta" || c.Out.Format != "fasta" || c.Auto) {
 		o.Skip = true
 		return o, nil
 	}
@@ -243,6 +256,10 @@ func checkCLI(c cliCase) (o pbt.Outcome, err error) {
 	}
 	// the options that describe the input, for the further commands run on the same input
 	inArgs := append([]string{}, args[2:]...)
+	if c.Unaligned {
+		args = append(args, "--unaligned")
+		o.Class("reformat fasta --unaligned")
+	}
 	if c.Out.Strict {
 		args = append(args, "--output-strict")
 	}
